@@ -11,6 +11,7 @@ import (
 	"os"
 	"strconv"
 	"strings"
+	"sync"
 	"time"
 
 	"github.com/cosmos72/gomacro/base"
@@ -100,10 +101,17 @@ func runProgFast(p *Prog) *Result {
 		n, _ := strconv.ParseUint(o, 10, 64)
 		ir.Comp.Globals.Options &^= base.Options(n)
 	}
-	ir.DeclFunc("rec", func(tag int, v ...interface{}) { trace.Rec(tag, v...) })
+	var tmu sync.Mutex // interpreted goroutines may call rec concurrently
+	ir.DeclFunc("rec", func(tag int, v ...interface{}) { tmu.Lock(); trace.Rec(tag, v...); tmu.Unlock() })
 	ir.DeclFunc("pcl", func(r interface{}) string { return tr.PanicClass(r) })
-	ir.DeclFunc("hk", func() { trace.Hooks++ })
+	ir.DeclFunc("hk", func() { tmu.Lock(); trace.Hooks++; tmu.Unlock() })
 	ir.DeclFunc("nc", func(v interface{}) interface{} { return tr.NoCap{V: v} })
+	ir.DeclFunc("par", parCall)
+	if y := p.Mode["yield"]; y != "" {
+		n, _ := strconv.ParseUint(y, 10, 64)
+		fast.VerifSetYieldSeed(n)
+		fast.VerifSetOwnership(true)
+	}
 	timedOut := false
 	timer := time.AfterFunc(60*time.Second, func() { timedOut = true; ir.Interrupt(os.Interrupt) })
 	defer timer.Stop()
@@ -118,6 +126,11 @@ func runProgFast(p *Prog) *Result {
 			"IntsDetached":   strconv.FormatInt(after.IntsDetached-before.IntsDetached, 10),
 			"ValsPoisoned":   strconv.FormatInt(after.ValsPoisoned-before.ValsPoisoned, 10),
 			"IntsPoisoned":   strconv.FormatInt(after.IntsPoisoned-before.IntsPoisoned, 10),
+			"OwnerViolations": strconv.FormatInt(after.OwnerViolations-before.OwnerViolations, 10),
+			"Yields":         strconv.FormatInt(after.Yields-before.Yields, 10),
+		}
+		if after.OwnerViolations != before.OwnerViolations {
+			res.Extra["FirstOwnerViolation"] = fast.VerifFirstOwnerViolation()
 		}
 		res.Events = trace.Events
 		res.Hooks = trace.Hooks
@@ -181,4 +194,26 @@ func runProgFast(p *Prog) *Result {
 		}
 	}
 	return finish()
+}
+
+// parCall invokes an interpreted callback from n foreign goroutines concurrently and returns the sum of its results.
+func parCall(n int, f func(int) int) int {
+	var wg sync.WaitGroup
+	res := make([]int, n)
+	start := make(chan struct{})
+	for i := 0; i < n; i++ {
+		wg.Add(1)
+		go func(i int) {
+			defer wg.Done()
+			<-start
+			res[i] = f(i)
+		}(i)
+	}
+	close(start)
+	wg.Wait()
+	sum := 0
+	for _, x := range res {
+		sum += x
+	}
+	return sum
 }
